@@ -266,6 +266,38 @@ def gen_random(seed_, n, tier, first_id=1_000_000):
 
 
 # ----------------------------------------------------------------------------- running
+def tokens_out_of_place(text, data):
+    """Semantic tokens (relative encoding) that cannot be right for `text`, whatever the highlighting is: a token
+    that starts beyond its line, overlaps its predecessor on the same line, or -- unless it starts a block comment
+    or pragma, which may run over several lines -- ends beyond the end of its line.  Columns and lengths are UTF-16
+    code units (LSP)."""
+    lines = [l[:-1] if l.endswith("\r") else l for l in text.split("\n")]
+    bad, line, col, prev_end = 0, 0, 0, 0
+    for i in range(0, len(data) - 4, 5):
+        dl, dc, ln = data[i], data[i + 1], data[i + 2]
+        if dl:
+            line, col, prev_end = line + dl, dc, 0
+        else:
+            col += dc
+        if line >= len(lines):
+            bad += 1
+            continue
+        L = lines[line]
+        l16 = sum(w16(c) for c in L)
+        # the text of the line from column `col` on
+        k, u = 0, 0
+        while k < len(L) and u < col:
+            u += w16(L[k])
+            k += 1
+        rest = L[k:]
+        if col > l16 or u != col or col < prev_end:
+            bad += 1
+        elif not (rest.startswith("(*") or rest.startswith("/*") or rest.startswith("{")) and col + ln > l16:
+            bad += 1
+        prev_end = col + ln
+    return bad
+
+
 def norm(x):
     """Answers are compared as they are, minus the per-server request counters."""
     if isinstance(x, dict):
@@ -406,7 +438,11 @@ class Session:
         for k, ia, ib in reqs:
             ra = answer_of(self.call("incr", f"Query:{k}", lambda: A.wait(ia, self.timeout)))
             rb = answer_of(self.call("fresh", f"Query:{k}", lambda: B.wait(ib, self.timeout)))
-            ev.append({"a": "Query", "kind": k, "incr": digest(ra), "fresh": digest(rb)})
+            e = {"a": "Query", "kind": k, "incr": digest(ra), "fresh": digest(rb)}
+            res = rb.get("result") if isinstance(rb, dict) else None
+            if k == "semanticTokens" and isinstance(res, dict) and isinstance(res.get("data"), list):
+                e["tokBad"] = tokens_out_of_place(model, res["data"])
+            ev.append(e)
             if self.keep:
                 full.append({"after_event": len(ev), "kind": k, "incr": ra, "fresh": rb})
         if probe is not None:
